@@ -124,7 +124,49 @@ func amplifyAPI(env *core.Env, in core.Case, tr core.Case, why string) []core.Ca
 			c["cons"] = cons
 			res = append(res, c)
 		}
-	case strings.HasPrefix(why, "parse-dump:") || strings.HasPrefix(why, "learned-not-entailed:"):
+	case strings.HasPrefix(why, "fact-not-entailed:") && b(in, "hasObj"):
+		// a literal was asserted at the top level during an optimisation although a model m of everything
+		// given so far (bounds included) falsifies it: m is lost, which only shows in the final answer when
+		// no other model is as good. Follow-ups: the same problem with the cost bounded from below by the
+		// cost of m (m becomes optimal), and with the weights of the cost function permuted.
+		m := parseWitness(why[strings.Index(why, ":")+1:])
+		o, _ := in["obj"].(map[string]any)
+		if o == nil {
+			if om, ok := in["obj"].(gen.M); ok {
+				o = om
+			}
+		}
+		ol, ow := toInts(o["lits"]), toInts(o["w"])
+		if len(m) < n0 || len(ol) == 0 || len(ol) != len(ow) {
+			return nil
+		}
+		cost := 0
+		for i, l := range ol {
+			v := l
+			if v < 0 {
+				v = -v
+			}
+			if v > len(m) {
+				return nil
+			}
+			if m[v-1] == (l > 0) {
+				cost += ow[i]
+			}
+		}
+		c := deepCopy(in)
+		c["cons"] = append(consOf(in), gen.Ctor("gteq", append([]int{}, ol...), append([]int{}, ow...), cost))
+		res = append(res, c)
+		for k := 0; k < 8; k++ {
+			c2 := deepCopy(in)
+			w2 := append([]int{}, ow...)
+			env.Rand.Shuffle(len(w2), func(i, j int) { w2[i], w2[j] = w2[j], w2[i] })
+			c2["obj"] = gen.M{"lits": append([]int{}, ol...), "w": w2}
+			if k%2 == 1 {
+				c2["cons"] = append(consOf(c2), gen.Ctor("gteq", append([]int{}, ol...), w2, cost))
+			}
+			res = append(res, c2)
+		}
+	case strings.HasPrefix(why, "parse-dump:") || strings.HasPrefix(why, "learned-not-entailed:") || strings.HasPrefix(why, "fact-not-entailed:"):
 		m := parseWitness(why[strings.Index(why, ":")+1:])
 		if len(m) == 0 || len(m) < n0 {
 			return nil
